@@ -494,3 +494,61 @@ def queue_activity_classes(prog, hist):
                 waiter = True
                 break
     return flips_ok, waiter, multi_thread_q
+
+
+# ---------------------------------------------------------------- barriers on concurrent queues (C04, C10)
+def queue_intervals(prog, hist, q):
+    """all executions on queue q: (start, end, call, ret, op, idx, is_barrier); apply invocations count as readers"""
+    call, ret, start, end, starts, ends = hist.index()
+    out = []
+    for o in prog.order:
+        if o.a != q:
+            continue
+        if o.kind in e3.SUBMIT_KINDS:
+            if o.id in start:
+                out.append((start[o.id], end.get(o.id, 1 << 60), call.get(o.id), ret.get(o.id), o, -1, o.kind in e3.BARRIER_KINDS))
+        elif o.kind == "apply":
+            em = {i: p for p, i in ends.get(o.id, [])}
+            for p, i in starts.get(o.id, []):
+                out.append((p, em.get(i, 1 << 60), call.get(o.id), ret.get(o.id), o, i, False))
+    return out
+
+
+def barrier_verdicts(prog, hist, q, label="concurrent queue barrier"):
+    iv = queue_intervals(prog, hist, q)
+    out = []
+    bars = [x for x in iv if x[6]]
+    for b in bars:
+        bs, be, bc, br, bo = b[0], b[1], b[2], b[3], b[4]
+        for x in iv:
+            if x is b:
+                continue
+            xs, xe, xc, xr, xo, xi = x[0], x[1], x[2], x[3], x[4], x[5]
+            if xs < be and bs < xe:
+                out.append(Verdict("%s q%d: barrier item of op %d (%s) [events %d..%s] overlapped item of op %d (%s%s) [events %d..%s]" %
+                                   (label, q, bo.id, bo.kind, bs, be, xo.id, xo.kind, "" if xi < 0 else " index %d" % xi, xs, xe),
+                                   dict(kind="barrier-overlap", b_kind=bo.kind, x_kind=xo.kind)))
+            elif xr is not None and bc is not None and xr < bc and bs < xe:
+                out.append(Verdict("%s q%d: op %d (%s) was submitted and returned (event %d) before barrier op %d (%s) was submitted (event %d), yet the barrier started (event %d) before that item finished (event %s)" %
+                                   (label, q, xo.id, xo.kind, xr, bo.id, bo.kind, bc, bs, xe), dict(kind="barrier-order-before", b_kind=bo.kind, x_kind=xo.kind,
+                                                                                                     b_inline=bool(hist.ev["tid"][bs] == hist.ev["tid"][bc]))))
+            elif br is not None and xc is not None and br < xc and xs < be:
+                out.append(Verdict("%s q%d: barrier op %d (%s) submission returned (event %d) before op %d (%s) was submitted (event %d), yet that item started (event %d) before the barrier finished (event %s)" %
+                                   (label, q, bo.id, bo.kind, br, xo.id, xo.kind, xc, xs, be), dict(kind="barrier-order-after", b_kind=bo.kind, x_kind=xo.kind)))
+            if len(out) > 3:
+                return out
+    return out
+
+
+def barrier_classes(prog, hist, q):
+    iv = queue_intervals(prog, hist, q)
+    readers = [x for x in iv if not x[6]]
+    bars = [x for x in iv if x[6]]
+    bar_while_reader = any(any(r[0] < b[2] < r[1] for r in readers) for b in bars if b[2] is not None)
+    reader_while_bar = any(any(b[2] is not None and b[2] < r[2] < b[1] for b in bars) for r in readers if r[2] is not None)
+    ev = sorted([(r[0], 1) for r in readers] + [(r[1], -1) for r in readers])
+    depth = mx = 0
+    for _, d in ev:
+        depth += d
+        mx = max(mx, depth)
+    return bar_while_reader, reader_while_bar, mx
